@@ -20,6 +20,43 @@ type PathEval struct {
 func (e *PathEval) Consts(v ssa.Value) (vals []constant.Value, ok bool) {
 	seen := map[ssa.Value]bool{}
 	var ev func(v ssa.Value) ([]constant.Value, bool)
+	// infeasible: control reaches `to` from `from` only through a branch edge whose condition has,
+	// on the live paths, only the opposite constant value
+	decided := func(q *ssa.BasicBlock, k int) bool {
+		iff, ok := q.Instrs[len(q.Instrs)-1].(*ssa.If)
+		if !ok || len(q.Succs) != 2 || q.Succs[0] == q.Succs[1] {
+			return false
+		}
+		vs, ok := ev(iff.Cond)
+		if !ok || len(vs) == 0 {
+			return false
+		}
+		for _, c := range vs {
+			if c.Kind() != constant.Bool {
+				return false
+			}
+			if constant.BoolVal(c) == (k == 0) {
+				return false // this edge can be taken
+			}
+		}
+		return true
+	}
+	infeasible := func(from, to *ssa.BasicBlock) bool {
+		for k, sx := range from.Succs {
+			if sx == to && decided(from, k) {
+				return true
+			}
+		}
+		if len(from.Preds) == 1 {
+			q := from.Preds[0]
+			for k, sx := range q.Succs {
+				if sx == from && decided(q, k) {
+					return true
+				}
+			}
+		}
+		return false
+	}
 	ev = func(v ssa.Value) ([]constant.Value, bool) {
 		if seen[v] {
 			return nil, true
@@ -54,6 +91,11 @@ func (e *PathEval) Consts(v ssa.Value) (vals []constant.Value, ok bool) {
 					if si >= 0 && e.Cut(pred, si) {
 						continue
 					}
+				}
+				// the edge may be controlled by a branch whose condition is decided on the live paths
+				// (ok := true; if n < 0 { ok = false } with n = -1 here): skip infeasible edges
+				if infeasible(pred, b) {
+					continue
 				}
 				vs, ok := ev(edge)
 				if !ok {
